@@ -22,35 +22,37 @@ open Gimli Gimli.Line Gimli.Spec.Line
 /-! ## "For any input whatsoever, row addresses never decrease within a sequence and never
 exceed the address size" -/
 
-/-- **Monotone on every input.** For every header and every byte string, in the trace of
-`next_row()` calls: every returned row's address is at least the address of the previous returned
-row of the same sequence and at most the all-ones value of the address size. A sequence ends at a
-row with `end_sequence` — including one that `next_row` computed and swallowed because the row
-was tombstoned (`hidden`; see `monotone_observed_counterexample` for why this has to be said).
-Errors returned by `next_row` (the iteration goes on after an `execute` error) do not break the
-invariant. No hypothesis on the header at all. -/
+/-- **Monotone on every input, as the caller sees it.** For every header and every byte string,
+in what `next_row()` returns until `Ok(None)`: every returned row's address is at least the
+address of the previous returned row of the same sequence and at most the all-ones value of the
+address size, where a sequence ends exactly at a *returned* row with `end_sequence`. Errors
+returned by `next_row` (the iteration goes on after an `execute` error) and rows swallowed as
+tombstones do not break it. No hypothesis on the header at all.
+
+Holds since the `fix:` for the end row of a partially tombstoned sequence (former finding C04-1:
+before it a tombstoned `end_sequence` was swallowed together with its register reset, so the
+caller saw addresses go backwards inside one sequence; the invariant that carries the proof is
+"`in_sequence = false` ⇒ no row of the current sequence has been returned", so a swallowed
+`end_sequence` can no longer follow a returned row). -/
 theorem monotone_any_input (h : Params) (bs : Bytes) :
-    MonoTrace h.addrSize 0 (trace h bs) := by
-  unfold trace
-  apply traceLoop_mono
-  · exact reset_endSequence h _
-  · exact Nat.zero_le _
-  · rw [reset_new]; simp [Row.new]
+    MonoObserved h.addrSize 0 (run h bs) ∧ MonoObserved h.addrSize 0 (trace h bs) := by
+  have ht : MonoObserved h.addrSize 0 (trace h bs) := by
+    unfold trace
+    apply traceLoop_mono
+    · exact reset_endSequence h _
+    · exact Nat.zero_le _
+    · rw [reset_new]; simp [Row.new]
+    · intro _; rfl
+  exact ⟨monoObserved_filter _ _ 0 ht, ht⟩
 
 /-- **Never beyond the address size**, unconditionally, for what the caller sees. -/
 theorem address_bound_any_input (h : Params) (bs : Bytes) (r : Row) (hr : Ev.row r ∈ run h bs) :
-    r.address ≤ onesSized h.addrSize := by
-  unfold run at hr
-  exact row_bound_of_trace _ _ 0 (monotone_any_input h bs) r (List.mem_filter.mp hr).1
+    r.address ≤ onesSized h.addrSize :=
+  row_bound_of_observed _ _ 0 (monotone_any_input h bs).1 r hr
 
-/-- **Monotone as observed** (sequences delimited by the `end_sequence` rows the caller actually
-receives) — partial: holds when no `end_sequence` row was swallowed as a tombstone.
-
-Full statement (FALSE for the code as it is, finding C04-1):
-`∀ h bs, MonoObserved h.addrSize 0 (run h bs)`. -/
-theorem monotone_observed_partial (h : Params) (bs : Bytes) (hne : NoHiddenEnd (trace h bs)) :
-    MonoObserved h.addrSize 0 (run h bs) :=
-  monoObserved_of_trace _ _ 0 (monotone_any_input h bs) hne
+/-- resuming a sequence is running its instructions, so the same holds for `resume_from` -/
+theorem monotone_resume (h : Params) (s : Seq) : MonoObserved h.addrSize 0 (resume h s) :=
+  (monotone_any_input h s.instructions).1
 
 /-- a usual header: version 4, 8-byte addresses, line_base −5, line_range 14, opcode_base 13 -/
 def hdr4 : Params where
@@ -83,14 +85,23 @@ def hdrVliw : Params where
 example : hdr4.Valid := by decide
 example : hdrVliw.Valid := by decide
 
-/-- **Finding C04-1, pinned.** `set_address 0x5000; copy; set_address 0` (lower ⇒ tombstone)`;
-end_sequence` (swallowed, but the registers are reset)`; set_address 0x1000; copy; end_sequence`:
-the caller receives rows at 0x5000, 0x1000, 0x1000(end) — addresses go backwards inside what it
-can only see as one sequence. -/
-theorem monotone_observed_counterexample :
-    ¬ MonoObserved 8 0 (run hdr4
+/-- regression witness of the repaired finding C04-1: `set_address 0x5000; copy; set_address 0`
+(lower ⇒ tombstone)`; end_sequence; set_address 0x1000; copy; end_sequence`. The first sequence
+now gets its end row, at the address where the tombstone started, so the caller receives
+0x5000, 0x5000(end), 0x1000, 0x1000(end) — before the fix: 0x5000, 0x1000, 0x1000(end). -/
+example : (run hdr4
       [0, 9, 2, 0, 0x50, 0, 0, 0, 0, 0, 0,  1,  0, 9, 2, 0, 0, 0, 0, 0, 0, 0, 0,  0, 1, 1,
-       0, 9, 2, 0, 0x10, 0, 0, 0, 0, 0, 0,  1,  0, 1, 1]) := by
+       0, 9, 2, 0, 0x10, 0, 0, 0, 0, 0, 0,  1,  0, 1, 1]).map
+      (fun e => match e with | .row r => (r.address, r.endSequence) | _ => (0, false)) =
+    [(0x5000, false), (0x5000, true), (0x1000, false), (0x1000, true)] := by
+  decide
+
+/-- a sequence that is tombstoned from its start is still skipped entirely, end row included -/
+example : (run hdr4
+      [0, 9, 2, 0xff, 0xff, 0xff, 0xff, 0xff, 0xff, 0xff, 0xff,  1,  0, 1, 1,
+       0, 9, 2, 0, 0x10, 0, 0, 0, 0, 0, 0,  1,  0, 1, 1]).map
+      (fun e => match e with | .row r => (r.address, r.endSequence) | _ => (0, false)) =
+    [(0x1000, false), (0x1000, true)] := by
   decide
 
 /-! ## special opcodes: all 256 opcode values × all header parameters -/
@@ -174,10 +185,10 @@ theorem rows_refine (h : Params) (hv : h.Valid) (bs : Bytes) (prog : List Instr)
     trace h bs = (rows h prog).map (fun r => Ev.row (toRow r)) := by
   have htrace : trace h bs = (rows h prog).map (fun r => Ev.row (toRow r)) := by
     unfold trace
-    rw [traceLoop_decodeAll h _ _ _ _ hdec, reset_new]
+    rw [traceLoop_decodeAll h _ _ _ _ _ hdec, reset_new]
     have hinit : Row.new h = toRow (init h) := by simp [Row.new, toRow, init]
     have hmax1 : 1 ≤ h.maxOps := hv.2.2.2.2.2.1
-    rw [hinit, traceInstrs_spec h hv prog (init h) (by simp [init]; omega)
+    rw [hinit, traceInstrs_spec h hv prog (init h) false (by simp [init]; omega)
       (by rw [regsOk_iff]; simp [init]; exact Nat.two_pow_pos _) hwf]
     rfl
   refine ⟨?_, htrace⟩
@@ -193,18 +204,6 @@ theorem files_refine (h : Params) (bs : Bytes) (prog : List Instr)
     (hdec : decodeAll h (bs.length + 1) bs = .ok prog) :
     Line.definedFiles h (bs.length + 1) bs = Spec.Line.definedFiles prog :=
   definedFiles_decodeAll h _ bs prog hdec
-
-/-- corollary: a well-formed program never runs into finding C04-1 — what the caller observes is
-monotone inside every sequence it can see -/
-theorem wf_monotone_observed (h : Params) (hv : h.Valid) (bs : Bytes) (prog : List Instr)
-    (hdec : decodeAll h (bs.length + 1) bs = .ok prog) (hwf : WF h prog = true) :
-    MonoObserved h.addrSize 0 (run h bs) := by
-  apply monotone_observed_partial
-  rw [(rows_refine h hv bs prog hdec hwf).2]
-  have : (rows h prog).map (fun r => Ev.row (toRow r)) = ((rows h prog).map toRow).map Ev.row := by
-    rw [List.map_map]; rfl
-  rw [this]
-  exact noHiddenEnd_map_row _
 
 /-! ### non-vacuity of `rows_refine`: concrete programs that decode, are well-formed, and whose
 matrix is what one computes by hand from §6.2 -/
@@ -312,25 +311,32 @@ example : sequences hdr4 [0, 9, 2, 0, 0x10, 0, 0, 0, 0, 0, 0,  0, 1, 1] =
            instructions := [0, 9, 2, 0, 0x10, 0, 0, 0, 0, 0, 0,  0, 1, 1] }] := by
   decide
 
-/-- **Ordered bounds** — partial: `start ≤ end` for every reported sequence inside which no
-`end_sequence` was swallowed.
-
-Full statement (FALSE for the code as it is, finding C04-1, which is the only way to get
-`start > end`; see `monotone_observed_counterexample`): without the hypothesis `hne`. -/
-theorem sequences_ordered_partial (h : Params) (bs : Bytes) (seqs : List Seq)
-    (hs : sequences h bs = .ok seqs) (s : Seq) (hmem : s ∈ seqs)
-    (hne : NoHiddenEnd (trace h s.instructions)) : s.start ≤ s.end := by
+/-- **Ordered bounds, every input**: `start ≤ end` for every sequence `sequences()` reports, and
+every row the sequence yields lies in `start ..= end` (holds since the `fix:` for the end row of a
+partially tombstoned sequence, former finding C04-1, which was the only way to get
+`start > end`). -/
+theorem sequences_ordered (h : Params) (bs : Bytes) (seqs : List Seq)
+    (hs : sequences h bs = .ok seqs) (s : Seq) (hmem : s ∈ seqs) :
+    s.start ≤ s.end ∧ ∀ r, Ev.row r ∈ resume h s → s.start ≤ r.address ∧ r.address ≤ s.end := by
   obtain ⟨_, _, _, h3⟩ := sequences_spec h bs seqs hs
   obtain ⟨rows, last, a, _, c, d, e⟩ := h3 s hmem
-  have hm := monotone_observed_partial h s.instructions hne
-  unfold resume at a
+  have hm := monotone_resume h s
   rw [a] at hm
   obtain ⟨h1, h2⟩ := monoObserved_last _ rows last 0 c hm
-  rw [d, e]
+  have hfirst := monoObserved_first _ rows last 0 c hm
+  rw [d, e, a]
   cases rows with
-  | nil => simp
-  | cons r rs => exact h2 r List.mem_cons_self
-
+  | nil =>
+    refine ⟨Nat.le_refl _, fun r hr => ?_⟩
+    simp at hr; subst hr; exact ⟨Nat.le_refl _, Nat.le_refl _⟩
+  | cons r0 rs =>
+    refine ⟨h2 r0 List.mem_cons_self, fun r hr => ?_⟩
+    simp only [List.map_cons, List.cons_append, List.mem_cons, Ev.row.injEq, List.mem_append,
+      List.mem_map, List.mem_singleton, List.not_mem_nil, or_false] at hr
+    rcases hr with rfl | ⟨x, hx, rfl⟩ | rfl
+    · exact ⟨Nat.le_refl _, h2 _ List.mem_cons_self⟩
+    · exact ⟨hfirst.1 x hx, h2 x (List.mem_cons_of_mem _ hx)⟩
+    · exact ⟨h2 r0 List.mem_cons_self, Nat.le_refl _⟩
 
 /-- non-vacuity: a program with two sequences and trailing rows -/
 example : (sequences hdr4 (bytes4 ++ [1, 1])).map (fun ss => ss.map (fun s => (s.start, s.end))) =
@@ -342,7 +348,7 @@ example : (sequences hdr4 (bytes4 ++ [1, 1])).map (fun ss => ss.map (fun s => (s
 no `stuck` (fuel exhausted / decoder panic) — the fuel `length + 1` always suffices because every
 instruction consumes at least one byte. -/
 theorem run_total (h : Params) (bs : Bytes) : Ev.stuck ∉ trace h bs ∧ Ev.stuck ∉ run h bs := by
-  have h1 : Ev.stuck ∉ trace h bs := traceLoop_not_stuck h _ _ bs (by omega)
+  have h1 : Ev.stuck ∉ trace h bs := traceLoop_not_stuck h _ _ _ bs (by omega)
   exact ⟨h1, fun hm => h1 (List.mem_filter.mp hm).1⟩
 
 /-- **The trace is the API**: a caller that constructs `LineRows` (registers `LineRow::new`) and
@@ -351,8 +357,8 @@ list all theorems above are about (`nextRow` mirrors one call: reset, then the l
 suppression; a parse error empties the input; an `execute` error is returned and the next call
 goes on). -/
 theorem next_row_iteration (h : Params) (bs : Bytes) :
-    collect h (bs.length + 1) (Row.new h) bs = run h bs :=
-  collect_eq_run h _ _ bs (by omega)
+    collect h (bs.length + 1) (Row.new h) false bs = run h bs :=
+  collect_eq_run h _ _ _ bs (by omega)
 
 /-- `LineInstruction::parse` returns an instruction or an error on every input and header, and a
 successful parse consumes at least one byte and does not depend on what follows the instruction -/
@@ -367,7 +373,7 @@ theorem decode_total (h : Params) (input : Bytes) :
 
 /-- `sequences()` returns the list or an error on every input (never panics, always terminates) -/
 theorem sequences_total (h : Params) (bs : Bytes) : (sequences h bs).Normal :=
-  seqLoop_normal h _ _ bs bs none [] (by omega)
+  seqLoop_normal h _ _ _ bs bs none [] (by omega)
 
 /-! ## the header -/
 
